@@ -35,6 +35,14 @@ CHECKS = {
          'Reachable states of list, map, set, string and byte_slice under the full operation alphabet with indices in [-len-2, len+2] are explored to a fixpoint; every (state, operation) step is executed on fresh real objects through the object API (and a stride / all of them through real scripts) and compared with the reference model on result, error and the contents of every live alias.',
          'Trusted: the reference model in internal/c16/model.go; the state key (contents of all live variables) is complemented by un-merged sequences so hidden state (capacity) cannot hide.',
          'E4 histbfs', '4 C16'),
+ 'C17': ('exploration', 'bounded-exhaustive differential execution: every corpus program compiled, marshalled, unmarshalled and run side by side with the original',
+         'Every program of the shared corpus (all C01/C02 families plus every constant kind and string escape) is compiled, marshalled twice, compiled again, unmarshalled, re-marshalled, and the original and reloaded code are run on fresh VMs; bytes must be equal at each step and behaviour identical.',
+         'Trusted: the harness comparison of (stage, error class/message, value text, output log). Programs outside the corpus are not covered.',
+         'E1 progen', '4 C17'),
+ 'C20': ('exploration', 'bounded-exhaustive enumeration of layout variants at every token gap and of single-token edits, against a position-free dump of the real AST and positional sanity of every diagnostic',
+         'For every corpus program: every token gap x permitted insertions, line breaks where the statement allows them, comments at line ends, blank lines, CRLF; the reflection dump of the real AST (positions removed) must equal the original. For diagnostics: every single-token deletion/duplication/substitution and every prefix; each parse/compile error must point inside the source, quote that line verbatim, and render without failing.',
+         'Trusted: the harness renderer knows the syntactic role of each gap (line breaks are only inserted after commas of list/map/set/argument lists, symbolic binary operators and pipes). Two known findings (positions at end of input).',
+         'E5 enum over E1 corpus', '4 C20'),
  'C13': ('exploration', 'bounded-exhaustive enumeration of path strings x operations x layouts against a component-wise containment oracle',
          'Every path string over the 7-segment alphabet up to 5 (quick) / 6 (thorough) segments, absolute/relative, with/without trailing separator, is pushed through os.ResolvePath, through every localfs operation on a real temp tree with sentinels outside the base, and through every VirtualOS operation over 7 mount tables x 4 working directories with recording filesystems; the oracle is an independent component-wise prefix computation. Complete within the stated alphabet and length.',
          'Trusted: the oracle in internal/c13 (filepath.Clean + component-wise prefix); effects observed on a real tmpfs tree. Not covered: segments outside the alphabet, host-planted symlinks.',
